@@ -35,7 +35,8 @@ func init() {
 		Explain: "Decides that snapshot I/O failures cannot crash the node or stop recording, structurally: the Snapshotter's file/writer handles are never left nil by any function (a nil store must be overwritten before every return), so no later use dereferences a nil writer; every error of a write/flush on the append path reaches the append wrapper's recovery branch, which (behind the retry interval only) re-runs compaction from in-memory state; errors of open/sync/rename are branched on and never flow into a panic; the tee goroutine that delivers events shares no handle state with the writer goroutine. Which faults an OS can produce and the 30 s timing are not covered.",
 		Run: runC12,
 		Mutants: []Mutant{
-			{Name: "handles-nil-on-error", File: "serf/snapshot.go", Func: "func (s *Snapshotter) compact(", Old: "\t// Close the file handle to the old snapshot\n\ts.fh.Close()\n", New: "\t// Close the file handle to the old snapshot\n\ts.fh.Close()\n\ts.buffered = nil\n", Expect: "R1"},
+			{Name: "handles-nil-on-error", File: "serf/snapshot.go", Func: "func (s *Snapshotter) compact(", Old: "\ts.fh.Close()\n\n\t// Move the new file into place\n", New: "\ts.fh.Close()\n\ts.buffered = nil\n\n\t// Move the new file into place\n", Expect: "R1"},
+			{Name: "recovery-depends-on-old-handle", File: "serf/snapshot.go", Func: "func (s *Snapshotter) compact(", Old: "\ts.fh.Close()\n\n\t// Move the new file into place\n", New: "\tif err := s.fh.Close(); err != nil {\n\t\treturn err\n\t}\n\n\t// Move the new file into place\n", Expect: "R4"},
 			{Name: "append-swallows-write-error", File: "serf/snapshot.go", Func: "func (s *Snapshotter) appendLine(", Old: "\tn, err := s.buffered.WriteString(l)\n\tif err != nil {\n\t\treturn err\n\t}\n", New: "\tn, _ := s.buffered.WriteString(l)\n", Expect: "R3"},
 			{Name: "append-swallows-flush-error", File: "serf/snapshot.go", Func: "func (s *Snapshotter) appendLine(", Old: "\t\tif err := s.buffered.Flush(); err != nil {\n\t\t\treturn err\n\t\t}\n", New: "\t\t_ = s.buffered.Flush()\n", Expect: "R3"},
 			{Name: "no-recovery", File: "serf/snapshot.go", Func: "func (s *Snapshotter) tryAppend(", Old: "\t\t\terr = s.compact()\n", New: "\t\t\terr = nil\n", Expect: "R4"},
@@ -371,6 +372,31 @@ func runC12(c *an.Ctx) {
 	}
 	// R4b compact rewrites from in-memory state
 	if cp := sm(c, "R4", "Snapshotter", "compact"); cp != nil {
+		// R4c recovery must not depend on the state of the handles it replaces: a broken (e.g. already closed)
+		// old handle keeps failing forever, so no outcome of an operation on s.fh / s.buffered may decide
+		// whether compaction goes on
+		n := 0
+		an.Instrs(cp, func(in ssa.Instruction) {
+			call, ok := in.(*ssa.Call)
+			if !ok || len(call.Call.Args) == 0 {
+				return
+			}
+			recv := an.Path(call.Call.Args[0])
+			if recv != "$0.fh" && recv != "$0.buffered" {
+				return
+			}
+			n++
+			used := false
+			if refs := call.Referrers(); refs != nil {
+				for _, r := range *refs {
+					if _, dbg := r.(*ssa.DebugRef); !dbg {
+						used = true
+					}
+				}
+			}
+			c.Add(!used, "R4", "compact:old-handle-result-ignored:"+kindOf(in), in, "the outcome of "+kindOf(in)+" on the handle being replaced does not influence the compaction (otherwise a handle broken by an earlier fault blocks every later recovery)", "referrer enumeration: result unused")
+		})
+		c.Floor("R4", "operations on the replaced handles in compact", n, 2)
 		reads := map[string]bool{}
 		an.Instrs(cp, func(in ssa.Instruction) {
 			if u, ok := in.(*ssa.UnOp); ok {
